@@ -131,4 +131,13 @@ theorem plan_copy_from_counter :
       Plan.before (Plan.idx (b!"sql INSERT message_mailbox") tx) (Plan.idx (b!"sql UPDATE mailboxes") tx)) = true := by
   decide
 
+/-- C03.7''  the UID announced by APPENDUID is **read from the link of the appended message**: in the plan of APPEND the
+insertion of the link is followed by a look-up in `message_mailbox` and only then by the tagged OK (a UID derived from the
+mailbox's counter — `uid_next - 1` — is another session's UID whenever an addition of that session lands in between). -/
+theorem plan_appenduid_from_link :
+    let t := Plan.trace (b!"message.HandleAppendWithReader")
+    Plan.before (Plan.lastIdx (· = (b!"sql INSERT message_mailbox")) t) (Plan.lastIdx (· = (b!"sql SELECT message_mailbox")) t) = true ∧
+    Plan.before (Plan.lastIdx (· = (b!"sql SELECT message_mailbox")) t) (Plan.lastIdx Plan.isAck t) = true := by
+  decide
+
 end Raven.Props.C03
